@@ -7,7 +7,7 @@ B=/verif/build
 mkdir -p $B
 cp /repo/go.mod $B/go.mod; cp /repo/go.sum $B/go.sum
 cat > $B/overlay.json <<J
-{"Replace":{"/repo/src/zz_verif_harness.go":"/verif/harness/zz_verif_harness.go"}}
+{"Replace":{"/repo/src/zz_verif_harness.go":"/verif/harness/zz_verif_harness.go","/repo/src/zz_verif_proxy.go":"/verif/harness/zz_verif_proxy.go"}}
 J
 cd /repo
 go build -tags verif -overlay $B/overlay.json -modfile $B/go.mod -o $B/harness ./src
